@@ -312,8 +312,23 @@ class CompareFiles(BCheck):
             with open(p, "w") as f:
                 f.write(t)
         tsv, lb, bed = os.path.join(d, "p.tsv"), os.path.join(d, "l.tsv"), os.path.join(d, "s.bed")
-        with contextlib.redirect_stdout(io.StringIO()):
+        buf = io.StringIO()
+        with contextlib.redirect_stdout(buf):
             run_compare([p0, p1], ploidy=2, tsv_pairwise=tsv, longest_block_tsv=lb, switch_error_bed=bed)
+        # the printed report: per chromosome, the "text: value" lines of the ALL / LARGEST INTERSECTION BLOCK sections
+        self.report = {}
+        chrom = section = None
+        for line in buf.getvalue().split("\n"):
+            if line.startswith("----") and "Chromosome" in line:
+                chrom, section = line.strip("- ").split()[1], None
+                continue
+            if ":" not in line or chrom is None:
+                continue
+            key, val = [x.strip() for x in line.rsplit(":", 1)]
+            if key in ("ALL INTERSECTION BLOCKS", "LARGEST INTERSECTION BLOCK"):
+                section = "all" if key.startswith("ALL") else "largest"
+            elif section:
+                self.report.setdefault(chrom, {}).setdefault(section + ":" + key, val)
         rows = {}
         with open(tsv) as f:
             header = f.readline().rstrip("\n").lstrip("#").split("\t")
@@ -366,6 +381,19 @@ class CompareFiles(BCheck):
                     if zeros != w["longest_hamming"] or len(agree.get(chrom, [])) != w["longest"]:
                         return dict(expected="longest-block agreement marks exactly %d disagreements over %d positions" % (w["longest_hamming"], w["longest"]),
                                     observed="%d zeros in %r" % (zeros, agree.get(chrom)), clause="agreement")
+                # the printed report states the same counts as the TSV row
+                rep = self.report.get(chrom, {})
+                for key, col in (("all:phased pairs of variants assessed", "all_assessed_pairs"), ("all:switch errors", "all_switches"),
+                                 ("all:switch/flip decomposition", "all_switchflips"), ("all:Block-wise Hamming distance", "blockwise_hamming"),
+                                 ("largest:switch errors", "largestblock_switches"), ("largest:switch/flip decomposition", "largestblock_switchflips"),
+                                 ("largest:Hamming distance", "largestblock_hamming")):
+                    if key not in rep:
+                        return dict(expected="report line %r for %s" % (key, chrom), observed=sorted(rep), clause="report")
+                    a_, b_ = rep[key], row[col]
+                    if "/" not in a_:
+                        a_, b_ = str(int(float(a_))), str(int(float(b_)))
+                    if a_ != b_:
+                        return dict(expected="%s: printed %r equals TSV %s = %s" % (chrom, key, col, row[col]), observed=rep[key], clause="report")
                 if inp["identical"] and (got["switches"] or got["hamming"] or got["sw"] or got["fl"]):
                     return dict(expected="zeros for identical inputs", observed=str(got), clause="identical")
             # relabelling: swap the haplotype order of one phase set in the second file
